@@ -14,6 +14,8 @@ pub struct GB<'a, 'c> {
     pub has_inner_label_or_nest: bool,
     pub max_depth: u32,
     pub count_jmp: bool,
+    /// also generate user `goto`s: out of the current structure to `END:` (appended by the caller) and `&&` conditions
+    pub gotos: bool,
 }
 
 impl<'a, 'c> GB<'a, 'c> {
@@ -31,6 +33,7 @@ impl<'a, 'c> GB<'a, 'c> {
         (c.to_string(), p.to_string())
     }
     fn if_cond(&mut self) -> String {
+        if self.gotos { return ["A == 0", "B", "A < B", "0", "1", "X > 1.0", "(A == 0) || (B == 2)", "!(A < B)", "(A == 0) && (B == 2)", "(A < 2) && B"][self.ch.pick(10)].to_string(); }
         ["A == 0", "B", "A < B", "0", "1", "X > 1.0", "(A == 0) || (B == 2)", "!(A < B)"][self.ch.pick(8)].to_string()
     }
 
@@ -50,8 +53,9 @@ impl<'a, 'c> GB<'a, 'c> {
         if depth > 0 { kinds.extend(["if", "ifelse", "while", "dowhile", "times", "timesclobber", "loop", "free", "ifelseif"]); }
         if in_loop { kinds.push("break"); kinds.push("condbreak"); }
         kinds.push("timelabel-marker");
+        if self.gotos { kinds.push("goto-end"); kinds.push("condgoto-end"); }
         let k = kinds[self.ch.pick(kinds.len())];
-        if k != "marker" && k != "timelabel-marker" && k != "break" && k != "condbreak" {
+        if k != "marker" && k != "timelabel-marker" && k != "break" && k != "condbreak" && k != "goto-end" && k != "condgoto-end" {
             self.n_struct += 1;
             if depth < self.max_depth { self.has_inner_label_or_nest = true; }
         }
@@ -60,6 +64,8 @@ impl<'a, 'c> GB<'a, 'c> {
             "marker" => self.marker(),
             "timelabel-marker" => { let t = self.timelabel(); format!("{t} {}", self.marker()) },
             "break" => "break;".to_string(),
+            "goto-end" => "goto END;".to_string(),
+            "condgoto-end" => { let c = self.if_cond(); format!("if ({c}) goto END;") },
             "condbreak" => { let c = self.if_cond(); format!("if ({c}) {{ break; }}") },
             "if" => { let c = self.if_cond(); let b = self.block(d, in_loop); format!("if ({c}) {{ {b} }}") },
             "ifelse" => { let c = self.if_cond(); let b = self.block(d, in_loop); let e = self.block(d, in_loop); format!("if ({c}) {{ {b} }} else {{ {e} }}") },
@@ -166,9 +172,11 @@ pub fn run(tier: &str) -> Report {
         let mut cases: Vec<Case> = vec![];
         let mut seen = BTreeSet::new();
         let stats = explore_dfs(bound, if thorough { 4_000_000 } else { 300_000 }, &|ch| {
-            let mut g = GB { ch, marker: 0, n_struct: 0, has_inner_label_or_nest: false, max_depth: depth, count_jmp: true };
+            let mut g = GB { ch, marker: 0, n_struct: 0, has_inner_label_or_nest: false, max_depth: depth, count_jmp: true, gotos: true };
             let b = g.block(depth, false);
-            (format!("{{ {b} }}"), g.n_struct >= 1 && g.has_inner_label_or_nest)
+            // `END:` is the target of the user gotos that leave every enclosing structure at once; a marker after it shows
+            // at which time the script arrives there
+            (if b.contains("goto END") { format!("{{ {b} END: mS(9000); }}") } else { format!("{{ {b} }}") }, g.n_struct >= 1 && g.has_inner_label_or_nest)
         }, &mut |choices, (body, nt)| {
             if seen.insert(body.clone()) { cases.push(Case { body, nontrivial: nt, choices: choices.to_vec() }); }
         });
@@ -193,7 +201,7 @@ pub fn run(tier: &str) -> Report {
     }
     rep.exhaustive = true;
     rep.bound_completed = format!("deviations<={bound}, nesting depth<={depth}, {flavours_done}/2 counting-jump flavours, {} valuations", vals.len());
-    rep.rule = "E-DFS over G-block choice sequences (if/else-if/else, while, do-while, times, times with clobber, loop, break, free blocks; relative time labels at block start/end/between); distinct = distinct body text; non-trivial = >= 1 structured statement with a time label or nested block inside".into();
+    rep.rule = "E-DFS over G-block choice sequences (if/else-if/else, while, do-while, times, times with clobber, loop, break, free blocks, user gotos out of any nesting to an end label, && / || / ! conditions; relative time labels at block start/end/between); distinct = distinct body text; non-trivial = >= 1 structured statement with a time label or nested block inside".into();
     rep.assumptions = vec!["truth::vm::AstVm is the reference interpreter on both sides".into(), "time labels are non-decreasing (DESIGN §3.6)".into(), "loop counts are non-negative".into()];
     rep.explanation = "AstVm(source block) vs AstVm(desugar_blocks(source)): instr log with real_time, final time/real_time, all registers; runs hitting the iteration cap are compared on the common log prefix".into();
     rep
